@@ -77,11 +77,11 @@ theorem typesOK_heading (P) (c : MiniCfg) (ws : List Nat) (h : c.heading = true)
     · rw [h'] at hr; cases hr; rfl
     · rw [h'] at hr; cases hr
 
-theorem typesOK_paragraph (c : MiniCfg) (terms : List BRule) (hin : ∀ t ∈ terms, SilentInert t) (ws : List Nat) :
-    SegOK TopCtx (TypesIn c) (ruleParagraph terms ws) := by
+theorem typesOK_paragraph (P : BState → Nat → Prop) (c : MiniCfg) (terms : List BRule) (hin : ∀ t ∈ terms, SilentInert t) (ws : List Nat) :
+    SegOK P (TypesIn c) (ruleParagraph terms ws) := by
   refine ⟨?_, ?_⟩
   · intro s line endLine s' hc hr
-    obtain ⟨n, cc, h1, h2, h'⟩ := paragraph_shape terms hin ws s line endLine hc
+    obtain ⟨n, cc, h1, h2, h'⟩ := paragraph_shape P terms hin ws s line endLine hc
     rw [h'] at hr; cases hr
     refine ⟨?seg, ?heq, ?hty⟩
     case heq =>
@@ -92,7 +92,7 @@ theorem typesOK_paragraph (c : MiniCfg) (terms : List BRule) (hin : ∀ t ∈ te
       simp only [List.mem_append, List.mem_singleton] at ht
       rcases ht with rfl | rfl | rfl <;> simp [allowedTypes]
   · intro s line endLine s' hc hr
-    obtain ⟨n, cc, h1, h2, h'⟩ := paragraph_shape terms hin ws s line endLine hc
+    obtain ⟨n, cc, h1, h2, h'⟩ := paragraph_shape P terms hin ws s line endLine hc
     rw [h'] at hr; cases hr
 
 theorem miniChain_typesOK (c : MiniCfg) (ws : List Nat) : ∀ r ∈ miniChain c ws, SegOK TopCtx (TypesIn c) r := by
@@ -111,7 +111,7 @@ theorem miniChain_typesOK (c : MiniCfg) (ws : List Nat) : ∀ r ∈ miniChain c 
   · split at hr
     · rename_i hc; simp at hr; subst hr; exact typesOK_heading _ c ws hc
     · cases hr
-  · subst hr; exact typesOK_paragraph c _ (miniTerminators_inert c ws) ws
+  · subst hr; exact typesOK_paragraph _ c _ (miniTerminators_inert c ws) ws
 
 /-- **C10.mini_provenance** — every token kind in the stream is produced by an enabled rule -/
 theorem mini_provenance (c : MiniCfg) (ws : List Nat) (maxNesting : Int) (src : List Char) (ts : List Tok)
